@@ -65,13 +65,15 @@ _CFG = {}
 def configs(tier):
     q = [{"NEngines": 3, "NLines": 1, "levels": [NONE, 0, 4, 8, 12], "cap": None},
          {"NEngines": 2, "NLines": 2, "levels": [NONE, 0, 4, 8], "cap": None},
-         {"NEngines": 4, "NLines": 1, "levels": [NONE, 0, 4, 8], "cap": None}]
+         {"NEngines": 4, "NLines": 1, "levels": [NONE, 0, 4, 8], "cap": None},
+         # a single engine's result "merged": the tuple of 1 layout of the scope sentence
+         {"NEngines": 1, "NLines": 2, "levels": [NONE, 0, 4, 8, 12], "cap": None}]
     if tier == "quick":
         return q
     return q + [{"NEngines": 3, "NLines": 2, "levels": [NONE, 0, 4, 8], "cap": None},
                 {"NEngines": 4, "NLines": 1, "levels": [NONE, 0, 4, 8, 12], "cap": None},
                 {"NEngines": 4, "NLines": 2, "levels": [NONE, 0, 4, 8], "cap": 8000},
-                {"NEngines": 1, "NLines": 2, "levels": [NONE, 0, 4, 8, 12], "cap": None}]
+                {"NEngines": 1, "NLines": 3, "levels": [NONE, 0, 4, 8, 12], "cap": None}]
 
 
 def consts_of(c, mut="none", lens=(1,)):
